@@ -350,7 +350,7 @@ def run(ctx):
     drivers = []
     for i, calls in enumerate(paths):
         drivers.append(run_calls([vlib.unset(c) for c in calls], variant=i))
-    nsim = 100 if quick else 3000
+    nsim = 100 if quick else 1200
     r_sim, behs = ctx.simulate_behaviours(
         "PullSrvImpl", "PullSrvImplSim.cfg", nsim, 11,
         label="behaviour emission (7 open kinds, 2 namespaces)")
@@ -358,7 +358,7 @@ def run(ctx):
         drivers.append(run_calls(b, variant=i, wire=(i % 3 == 0)))
     ctx.extra["tlc_behaviours_replayed"] = len(behs)
     # ---- 4. code -> spec: seeded random histories ---------------------------
-    nrand = 1000 if quick else 20000
+    nrand = 1000 if quick else 8000
     for i in range(nrand):
         drivers.append(random_trace(ctx.rng, i, wire=(i % 4 == 0)))
     ctx.extra["traces_through_cimxml_facade"] = sum(
